@@ -92,6 +92,12 @@ def run(ctx) -> list[Inst]:
             s_lr = tuple(sorted(swap_lr(c) for c in nt))
             s_fs = tuple(sorted(swap_fs(c) for c in nt))
             both_sides_in_one = len(sides(txt)) == 2 and s_lr == nt
+            if isinstance(n.test, ast.BoolOp) and isinstance(n.test.op, ast.Or):
+                # `if <orientation A> or <orientation B>`: the disjuncts must map onto each other
+                ds = {norm(v) for v in n.test.values}
+                if {tuple(sorted(swap_lr(c) for c in d)) for d in ds} == ds or \
+                        {tuple(sorted(swap_fs(c) for c in d)) for d in ds} == ds:
+                    both_sides_in_one = True
             if s_lr in normset and s_lr != nt or s_fs in normset and s_fs != nt or both_sides_in_one:
                 insts.append(Inst(RULE, fname, construct, 'ok', file=rel, line=n.lineno, props=props))
             elif len(sides(txt)) == 2 and (s_fs == nt or s_lr == nt):
